@@ -25,7 +25,7 @@ impl vstd::std_specs::convert::FromSpecImpl<Errno> for ResumeError {
     open spec fn from_spec(e: Errno) -> ResumeError { ResumeError::SystemError(e) }
 }
 pub enum Ev {
-    GotTty { ok: bool }, Wrote, Foreground { tty: Fd, pgid: Pid, ok: bool }, Kill { target: Pid, cont: bool, ok: bool },
+    Wrote, Foreground { tty: Fd, pgid: Pid, ok: bool }, Kill { target: Pid, cont: bool, ok: bool },
     Waited { pid: Pid, result: Option<ProcessResult> }, ShellForeground { tty: Fd, pgid: Pid, ok: bool }, Removed { index: usize },
 }
 pub trait Sys { const SIGCONT: signal::Number; }
@@ -52,16 +52,17 @@ impl JobList {
     #[verifier::external_body]
     pub fn verif_at(&self, index: usize) -> (r: &Job) requires self.jobs@.contains_key(index) ensures *r == self.jobs@[index] { unimplemented!() }
 }
-pub struct Env<S> { pub jobs: JobList, pub system: System<S>, pub main_pgid: Pid, pub verif_interactive: bool, pub verif_sigint_default: bool }
+pub struct Env<S> { pub jobs: JobList, pub system: System<S>, pub main_pgid: Pid, pub verif_interactive: bool, pub verif_sigint_default: bool, pub verif_tty: Option<Fd> }
 impl<S: Sys> Env<S> {
+    /// lib.rs Env::get_tty: the terminal of the shell, if it has one (a lookup; where it is made plays no role)
     #[verifier::external_body]
     pub fn get_tty(&mut self) -> (r: Result<Fd, Errno>)
-        ensures final(self).system.log@ == old(self).system.log@.push(Ev::GotTty { ok: r is Ok }), final(self).jobs == old(self).jobs, final(self).main_pgid == old(self).main_pgid { unimplemented!() }
+        ensures *final(self) == *old(self), (match r { Ok(fd) => Some(fd), Err(_) => None::<Fd> }) == old(self).verif_tty { unimplemented!() }
     /// lib.rs Env::wait_for_subshell_to_halt (unit waitsub): the status of the table may be updated (the job's state), no job appears or disappears
     #[verifier::external_body]
     pub fn wait_for_subshell_to_halt(&mut self, target: Pid) -> (r: Result<(Pid, ProcessResult), Errno>)
         ensures final(self).system.log@ == old(self).system.log@.push(Ev::Waited { pid: target, result: match r { Ok(p) => Some(p.1), Err(_) => None } }),
-            final(self).jobs.jobs@.dom() == old(self).jobs.jobs@.dom(), final(self).main_pgid == old(self).main_pgid { unimplemented!() }
+            final(self).jobs.jobs@.dom() == old(self).jobs.jobs@.dom(), final(self).main_pgid == old(self).main_pgid, final(self).verif_tty == old(self).verif_tty { unimplemented!() }
     #[verifier::external_body]
     pub fn is_interactive(&self) -> (r: bool) ensures r == self.verif_interactive { unimplemented!() }
     #[verifier::external_body]
@@ -70,20 +71,20 @@ impl<S: Sys> Env<S> {
 /// JobList::remove (unit joblist), with the removal recorded
 #[verifier::external_body]
 pub fn verif_remove<S>(env: &mut Env<S>, index: usize)
-    ensures final(env).system.log@ == old(env).system.log@.push(Ev::Removed { index }), final(env).jobs.jobs@ == old(env).jobs.jobs@.remove(index), final(env).main_pgid == old(env).main_pgid
+    ensures final(env).system.log@ == old(env).system.log@.push(Ev::Removed { index }), final(env).jobs.jobs@ == old(env).jobs.jobs@.remove(index), final(env).main_pgid == old(env).main_pgid, final(env).verif_tty == old(env).verif_tty
 { unimplemented!() }
 pub trait SigInt { const SIGINT: signal::Number; }
 impl vstd::std_specs::cmp::PartialEqSpecImpl for signal::Number {
     open spec fn obeys_eq_spec() -> bool { true }
     open spec fn eq_spec(&self, other: &signal::Number) -> bool { *self == *other }
 }
-/// the events of resuming a live job, from position n on (after the terminal lookup at n and the report at n + 1)
-pub open spec fn resumed(l: Seq<Ev>, n: int, pid: Pid, main_pgid: Pid, index: usize, res: ProcessResult) -> bool {
-    l.len() >= n + 4 && l[n + 1] is Wrote && ({
-        let has_tty = l[n] == (Ev::GotTty { ok: true });
-        let k = if has_tty { n + 3 } else { n + 2 };
+/// the events of resuming a live job, from position n on: the report, (the terminal handed to the job,) SIGCONT, ONE wait, (the
+/// terminal taken back,) and the removal exactly when the job has finished
+pub open spec fn resumed(l: Seq<Ev>, n: int, has_tty: bool, pid: Pid, main_pgid: Pid, index: usize, res: ProcessResult) -> bool {
+    l.len() >= n + 3 && l[n] is Wrote && ({
+        let k = if has_tty { n + 2 } else { n + 1 };
         // the terminal is handed to the job BEFORE the signal
-        (has_tty ==> (l[n + 2] matches Ev::Foreground { tty, pgid, ok } && pgid == pid && ok))
+        (has_tty ==> (l[n + 1] matches Ev::Foreground { tty, pgid, ok } && pgid == pid && ok))
         && l[k] == (Ev::Kill { target: neg_pid(pid), cont: true, ok: true })
         && l[k + 1] == (Ev::Waited { pid, result: Some(res) })
         && (has_tty ==> l.len() > k + 2 && (l[k + 2] matches Ev::ShellForeground { tty, pgid, ok } && pgid == main_pgid && ok))
